@@ -195,20 +195,27 @@ impl InputBuffer {
         if self.mod_chars.is_empty() {
             return;
         }
-        // single pass algorithm
-        // by default continuity is 1 codepoint
-        // go from the back and set it prev + 1 when chars are compatible
-        self.mod_cat_continuity.resize(self.mod_chars.len(), 1);
-        let mut cat = *self.mod_cat.last().unwrap_or(&CategoryType::all());
-        for i in (0..self.mod_cat.len() - 1).rev() {
-            let cur = self.mod_cat[i];
-            let common = cur & cat;
-            if !common.is_empty() {
-                self.mod_cat_continuity[i] = self.mod_cat_continuity[i + 1] + 1;
-                cat = common;
-            } else {
-                cat = cur;
+        // A run is the maximal stretch, determined left to right from the start of the text,
+        // over which consecutive chars keep a category in common.
+        // The continuity of a char is the distance to the end of the run which contains it.
+        let len = self.mod_cat.len();
+        self.mod_cat_continuity.resize(len, 1);
+        let mut start = 0;
+        while start < len {
+            let mut common = self.mod_cat[start];
+            let mut end = start + 1;
+            while end < len {
+                let next = common & self.mod_cat[end];
+                if next.is_empty() {
+                    break;
+                }
+                common = next;
+                end += 1;
             }
+            for i in start..end {
+                self.mod_cat_continuity[i] = end - i;
+            }
+            start = end;
         }
     }
 
